@@ -6,6 +6,7 @@ CONSTANTS RF1 = {5}
           Outcomes = {"ok", "conflict", "unavailable", "other"}
           Outcomes2 = {"ok"}
           ReplThresholdIsQuorum = FALSE
+          StaleMapReused = FALSE
           WithTimeout = TRUE
           CaseRF1 = {}
           CaseRFLocal = {}
